@@ -24,7 +24,11 @@
     * `hydrogens_complete`, `hydrogens_only_adds`, `hydrogens_nodup` — one residue through
       `add_hydrogens`: with every placement succeeding no reference hydrogen is missing (except
       HG of a bridged cysteine), nothing is removed, only reference hydrogens are added, once.
-  Not modelled: `Carboxylic` (its doubles and the O-swap through the temporary name `FLIP`),
+    * `ash_clean`, `glh_clean` — a protonated carboxyl group (`Carboxylic`: candidates doubled into
+      HD11…HD22, eliminated by the hydrogen-bond search, the survivor renamed and the two oxygens
+      swapped through the temporary name `FLIP`) ends with exactly OD1, OD2, HD2 (OE1, OE2, HE2),
+      everything else untouched — for every construction order and every sequence of outcomes;
+  Not modelled: the neutral C-terminus variant of `Carboxylic` (CTR),
   patch application, the retry order of `repair_heavy` — covered by the oracle on real runs only (final names of
   every residue against the topology of its final state, input heavy atoms conserved unless
   reported, matched ∪ missing = all, PQR lines = matched). Partial on exactly those.
@@ -33,6 +37,8 @@ import P2P.Model.Atoms
 import P2P.Model.FF
 import P2P.Proofs.AtomsLemmas
 import P2P.Proofs.FFLemmas
+import P2P.Model.Carboxylic
+import P2P.Proofs.CarboxylicLemmas
 
 namespace P2P.Props.C03
 open P2P P2P.Atoms P2P.Proofs.Atoms
@@ -66,6 +72,42 @@ theorem cleanup_spec (s : Names) (first second : Str) (hs : s.Nodup) (hne : firs
 theorem written_or_reported (m : P2P.FF.FFMap) (rs : List P2P.FF.ARes) :
     ((P2P.FF.applyFF m rs).1.map (·.1) ++ (P2P.FF.applyFF m rs).2).Perm (rs.flatMap (·.atoms)) :=
   P2P.Proofs.FF.applyFF_partition_core m rs
+
+/-! ### protonated carboxyl groups (ASH, GLH): `Carboxylic` -/
+
+open P2P.Carboxylic in
+/-- **ASH**: for every residue that holds OD1, OD2, HD1, HD2 (anywhere in its atom list) and none of
+the names the object creates, every construction order (both protons doubled in either order, or
+one only), every sequence of hydrogen-bond outcomes (`try_acceptor` eliminating the first or the
+second candidate, `fix` keeping any candidate) and every lowest-energy candidate at `complete`:
+after `complete` and `cleanup` the carboxyl group holds exactly OD1, OD2 and the proton HD2 — no
+HD1, no doubled candidate HD11…HD22, no `FLIP` — and every other atom of the residue is untouched.
+(The real `finalize` picks a candidate whenever one is alive; the harness checks that coupling at
+every call.) -/
+theorem ash_clean (names : Names) (hn : names.Nodup)
+    (hin : OD1 ∈ names ∧ OD2 ∈ names ∧ HD1 ∈ names ∧ HD2 ∈ names)
+    (hout : ∀ n ∈ [str "HD11", str "HD12", str "HD21", str "HD22", flipSuffix], n ∉ names)
+    (order : List Str) (ho : order ∈ orders HD1 HD2) (ops : List COp) (bestIdx : Nat) :
+    ((run names HD1 HD2 oxyD order ops bestIdx).filter (fun n => alphabetD.contains n)).Perm [OD1, OD2, HD2] ∧
+    (run names HD1 HD2 oxyD order ops bestIdx).filter (fun n => !alphabetD.contains n) =
+      names.filter (fun n => !alphabetD.contains n) :=
+  P2P.Proofs.Carboxylic.ash_clean_core names hn hin hout order ho ops bestIdx
+
+open P2P.Carboxylic in
+/-- **GLH**: the same for OE1, OE2, HE1, HE2 -/
+theorem glh_clean (names : Names) (hn : names.Nodup)
+    (hin : OE1 ∈ names ∧ OE2 ∈ names ∧ HE1 ∈ names ∧ HE2 ∈ names)
+    (hout : ∀ n ∈ [str "HE11", str "HE12", str "HE21", str "HE22", flipSuffix], n ∉ names)
+    (order : List Str) (ho : order ∈ orders HE1 HE2) (ops : List COp) (bestIdx : Nat) :
+    ((run names HE1 HE2 oxyE order ops bestIdx).filter (fun n => alphabetE.contains n)).Perm [OE1, OE2, HE2] ∧
+    (run names HE1 HE2 oxyE order ops bestIdx).filter (fun n => !alphabetE.contains n) =
+      names.filter (fun n => !alphabetE.contains n) :=
+  P2P.Proofs.Carboxylic.glh_clean_core names hn hin hout order ho ops bestIdx
+
+open P2P.Carboxylic in
+example : run ([str "N", str "HD2", str "CA", str "OD2", str "C", str "O", str "HD1", str "CB", str "CG", str "OD1"])
+    HD1 HD2 oxyD [HD1, HD2] [.acc true, .acc false, .fix 0] 0 =
+    [str "N", str "CA", str "OD1", str "C", str "O", str "CB", str "CG", str "OD2", str "HD2"] := by decide
 
 /-! ### heavy-atom repair and hydrogen addition, one residue -/
 
